@@ -20,12 +20,22 @@ SPEC_NOTETYPES = {"TAP": "1", "HOLD_HEAD": "2", "TAIL": "3", "ROLL_HEAD": "4", "
 
 
 def _enumerate_loop(lp: ast.For) -> Optional[Tuple[str, str, ast.expr]]:
-    """for i, x in enumerate(E) -> (i, x, E); only the start-less form."""
+    """for i, x in enumerate(E[, start]) -> (i, x, E); the start value is judged by the caller (_enumerate_start)."""
     it = lp.iter
-    if (isinstance(it, ast.Call) and isinstance(it.func, ast.Name) and it.func.id == "enumerate" and len(it.args) == 1 and not it.keywords
+    if (isinstance(it, ast.Call) and isinstance(it.func, ast.Name) and it.func.id == "enumerate" and 1 <= len(it.args) <= 2 and all(k.arg == "start" for k in it.keywords)
             and isinstance(lp.target, ast.Tuple) and len(lp.target.elts) == 2 and all(isinstance(e, ast.Name) for e in lp.target.elts)):
         return lp.target.elts[0].id, lp.target.elts[1].id, it.args[0]
     return None
+
+
+def _enumerate_start(lp: ast.For) -> Any:
+    it = lp.iter
+    if len(it.args) == 2:
+        return it.args[1].value if isinstance(it.args[1], ast.Constant) else "?"
+    for k in it.keywords:
+        if k.arg == "start":
+            return k.value.value if isinstance(k.value, ast.Constant) else "?"
+    return 0
 
 
 def _split_on(e: ast.expr) -> Optional[Tuple[ast.expr, str]]:
@@ -77,6 +87,8 @@ def beat_formula(ctx: Ctx) -> None:
     outer, inner = (loops[0], loops[1]) if any(n is loops[1] for st in loops[0].body for n in walk_no_nested(st)) else (loops[1], loops[0])
     l_idx, line_var, rows_iter = _enumerate_loop(outer)
     c_idx, cell_var, cells_iter = _enumerate_loop(inner)
+    for lp_, what in ((outer, "row"), (inner, "column")):
+        ctx.expect("R-POLY", fi, f"{what} indices count from 0", _enumerate_start(lp_) == 0, "", f"enumerate starts at {_enumerate_start(lp_)}: every {what} index is shifted", node=lp_)
     rows_src = inline(rows_iter, fi)
     good_rows = (isinstance(rows_src, ast.Call) and isinstance(rows_src.func, ast.Attribute) and rows_src.func.attr == "splitlines" and not rows_src.args
                  and isinstance(rows_src.func.value, ast.Name) and rows_src.func.value.id == pmeasure)
@@ -133,6 +145,8 @@ def beat_formula(ctx: Ctx) -> None:
     o2, i2 = (loops2[0], loops2[1]) if any(n is loops2[1] for st in loops2[0].body for n in walk_no_nested(st)) else (loops2[1], loops2[0])
     p_idx, sect_var, p_iter = _enumerate_loop(o2)
     m_idx, meas_var, m_iter = _enumerate_loop(i2)
+    for lp_, what in ((o2, "player"), (i2, "measure")):
+        ctx.expect("R-POLY", fit, f"{what} indices count from 0", _enumerate_start(lp_) == 0, "", f"enumerate starts at {_enumerate_start(lp_)}", node=lp_)
     sp, sm = _split_on(p_iter), _split_on(m_iter)
     sn = fit.param_names()[0]
     ctx.expect("R-TABLE", fit, "player sections are split on '&'", sp is not None and sp[1] == "&" and self_attr(sp[0], sn) == "_notedata", src(p_iter), f"outer loop iterates {src(p_iter)}", node=o2)
